@@ -91,6 +91,8 @@ class ModelEval(Evaluator):
         nid = node.id
         if nid in self.env:
             return self.env[nid]
+        if nid in self.hooks.get("builtins", ()):
+            return self.hooks["builtins"][nid]
         if nid in ("True", "False", "None"):
             return {"True": True, "False": False, "None": None}[nid]
         if nid in ("isinstance", "hasattr", "getattr", "setattr", "super", "print", "callable", "type", "NotImplemented"):
